@@ -835,9 +835,25 @@ func resolveMathType(module *Module, fn *Function, expr ExprMath) (TypeResolutio
 		}
 		return argType, nil
 
-	case MathLength, MathDistance:
-		// Length and distance return f32
+	case MathLength, MathDistance, MathDeterminant:
+		// length, distance and determinant return the scalar type of their
+		// argument (f16 for vec3<f16> / mat2x2<f16>, not always f32).
+		switch t := resolveInner(module, argType).(type) {
+		case VectorType:
+			return TypeResolution{Value: t.Scalar}, nil
+		case MatrixType:
+			return TypeResolution{Value: t.Scalar}, nil
+		case ScalarType:
+			return TypeResolution{Value: t}, nil
+		}
 		return TypeResolution{Value: ScalarType{Kind: ScalarFloat, Width: 4}}, nil
+
+	case MathTranspose:
+		// transpose(matCxR) is matRxC
+		if m, ok := resolveInner(module, argType).(MatrixType); ok && m.Columns != m.Rows {
+			return TypeResolution{Value: MatrixType{Columns: m.Rows, Rows: m.Columns, Scalar: m.Scalar}}, nil
+		}
+		return argType, nil
 
 	case MathOuter:
 		// Outer product returns matrix - complex, skip for now
